@@ -12,6 +12,7 @@ import (
 	"path/filepath"
 	"slices"
 	"strings"
+	"sync"
 
 	"golang.org/x/tools/go/ssa"
 )
@@ -29,7 +30,8 @@ type frame struct {
 	caller           *frame
 	fn               *ssa.Function
 	block, prevBlock *ssa.BasicBlock
-	env              map[ssa.Value]Value
+	env              []Value // indexed by layout.idx (one slot per SSA value of fn)
+	layout           *fnLayout
 	locals           []Value
 	defers           *deferred
 	result           Value
@@ -72,6 +74,65 @@ func (e *Engine) constValue(c *ssa.Const) Value {
 	panic(engineErr("constValue: unsupported constant %s of type %s", c, t))
 }
 
+// fnLayout numbers the SSA values of one function once; frames then keep their
+// environment in a slice instead of a map.
+type fnLayout struct {
+	idx map[ssa.Value]int32
+	n   int
+}
+
+var layoutCache sync.Map // *ssa.Function -> *fnLayout
+
+func layoutOf(fn *ssa.Function) *fnLayout {
+	if l, ok := layoutCache.Load(fn); ok {
+		return l.(*fnLayout)
+	}
+	l := &fnLayout{idx: map[ssa.Value]int32{}}
+	add := func(v ssa.Value) {
+		if _, ok := l.idx[v]; !ok {
+			l.idx[v] = int32(l.n)
+			l.n++
+		}
+	}
+	for _, p := range fn.Params {
+		add(p)
+	}
+	for _, fv := range fn.FreeVars {
+		add(fv)
+	}
+	for _, a := range fn.Locals {
+		add(a)
+	}
+	for _, b := range fn.Blocks {
+		for _, in := range b.Instrs {
+			if v, ok := in.(ssa.Value); ok {
+				add(v)
+			}
+		}
+	}
+	if fn.Recover != nil {
+		for _, in := range fn.Recover.Instrs {
+			if v, ok := in.(ssa.Value); ok {
+				add(v)
+			}
+		}
+	}
+	layoutCache.Store(fn, l)
+	return l
+}
+
+func (fr *frame) set(key ssa.Value, v Value) {
+	i, ok := fr.layout.idx[key]
+	if !ok {
+		panic(engineErr("set: no slot for %T: %v in %s", key, key.Name(), fr.fn))
+	}
+	fr.env[i] = v
+}
+
+func (fr *frame) slot(key ssa.Value) Value {
+	return fr.env[fr.layout.idx[key]]
+}
+
 func (fr *frame) get(key ssa.Value) Value {
 	switch key := key.(type) {
 	case nil:
@@ -85,8 +146,8 @@ func (fr *frame) get(key ssa.Value) Value {
 	case *ssa.Global:
 		return fr.e.globalAddr(key)
 	}
-	if r, ok := fr.env[key]; ok {
-		return r
+	if i, ok := fr.layout.idx[key]; ok {
+		return fr.env[i]
 	}
 	panic(engineErr("get: no value for %T: %v in %s", key, key.Name(), fr.fn))
 }
@@ -198,37 +259,37 @@ func (e *Engine) visitInstr(fr *frame, instr ssa.Instruction) (ret bool, jumped 
 		x := fr.get(instr.X)
 		switch instr.Op {
 		case token.MUL:
-			fr.env[instr] = e.load(x.(*Value), instr)
+			fr.set(instr, e.load(x.(*Value), instr))
 		case token.ARROW:
 			fr.g.siteOK = e.siteOK(instr.Pos())
 			v, ok := e.chanRecv(fr.g, x.(*Chan), instr.X.Type().Underlying().(*types.Chan).Elem())
 			if instr.CommaOk {
-				fr.env[instr] = Tuple{v, ok}
+				fr.set(instr, Tuple{v, ok})
 			} else {
-				fr.env[instr] = v
+				fr.set(instr, v)
 			}
 		default:
-			fr.env[instr] = e.unop(instr.Op, instr.X.Type(), x)
+			fr.set(instr, e.unop(instr.Op, instr.X.Type(), x))
 		}
 
 	case *ssa.BinOp:
-		fr.env[instr] = e.binop(instr.Op, instr.X.Type(), fr.get(instr.X), fr.get(instr.Y))
+		fr.set(instr, e.binop(instr.Op, instr.X.Type(), fr.get(instr.X), fr.get(instr.Y)))
 
 	case *ssa.Call:
 		fn, args := e.prepareCall(fr, &instr.Call)
-		fr.env[instr] = e.call(fr, instr.Pos(), fn, args)
+		fr.set(instr, e.call(fr, instr.Pos(), fn, args))
 
 	case *ssa.ChangeInterface:
-		fr.env[instr] = fr.get(instr.X)
+		fr.set(instr, fr.get(instr.X))
 
 	case *ssa.ChangeType:
-		fr.env[instr] = fr.get(instr.X)
+		fr.set(instr, fr.get(instr.X))
 
 	case *ssa.Convert:
-		fr.env[instr] = e.conv(instr.Type(), instr.X.Type(), fr.get(instr.X))
+		fr.set(instr, e.conv(instr.Type(), instr.X.Type(), fr.get(instr.X)))
 
 	case *ssa.MultiConvert:
-		fr.env[instr] = e.conv(instr.Type(), instr.X.Type(), fr.get(instr.X))
+		fr.set(instr, e.conv(instr.Type(), instr.X.Type(), fr.get(instr.X)))
 
 	case *ssa.SliceToArrayPointer:
 		x := fr.get(instr.X).([]Value)
@@ -238,16 +299,16 @@ func (e *Engine) visitInstr(fr *frame, instr ssa.Instruction) (ret bool, jumped 
 		}
 		// arrays are values; share backing by wrapping (approximation: copy)
 		var cell Value = Array(x[:n:n])
-		fr.env[instr] = &cell
+		fr.set(instr, &cell)
 
 	case *ssa.MakeInterface:
-		fr.env[instr] = Iface{T: instr.X.Type(), V: copyVal(fr.get(instr.X))}
+		fr.set(instr, Iface{T: instr.X.Type(), V: copyVal(fr.get(instr.X))})
 
 	case *ssa.Extract:
-		fr.env[instr] = fr.get(instr.Tuple).(Tuple)[instr.Index]
+		fr.set(instr, fr.get(instr.Tuple).(Tuple)[instr.Index])
 
 	case *ssa.Slice:
-		fr.env[instr] = e.sliceOp(fr, instr)
+		fr.set(instr, e.sliceOp(fr, instr))
 
 	case *ssa.Return:
 		switch len(instr.Results) {
@@ -306,15 +367,15 @@ func (e *Engine) visitInstr(fr *frame, instr ssa.Instruction) (ret bool, jumped 
 
 	case *ssa.MakeChan:
 		n := e.concretizeInt(fr.get(instr.Size), "chan size")
-		fr.env[instr] = e.newChan(int(n))
+		fr.set(instr, e.newChan(int(n)))
 
 	case *ssa.Alloc:
 		var addr *Value
 		if instr.Heap {
 			addr = new(Value)
-			fr.env[instr] = addr
+			fr.set(instr, addr)
 		} else {
-			addr = fr.env[instr].(*Value)
+			addr = fr.slot(instr).(*Value)
 		}
 		*addr = zero(deref(instr.Type()))
 
@@ -329,26 +390,26 @@ func (e *Engine) visitInstr(fr *frame, instr ssa.Instruction) (ret bool, jumped 
 		for i := range s {
 			s[i] = zero(tElt)
 		}
-		fr.env[instr] = s[:l]
+		fr.set(instr, s[:l])
 
 	case *ssa.MakeMap:
-		fr.env[instr] = newMap(instr.Type().Underlying().(*types.Map).Key())
+		fr.set(instr, newMap(instr.Type().Underlying().(*types.Map).Key()))
 
 	case *ssa.Range:
-		fr.env[instr] = e.rangeIter(fr.get(instr.X), instr.X.Type())
+		fr.set(instr, e.rangeIter(fr.get(instr.X), instr.X.Type()))
 
 	case *ssa.Next:
-		fr.env[instr] = fr.get(instr.Iter).(iter).next(e)
+		fr.set(instr, fr.get(instr.Iter).(iter).next(e))
 
 	case *ssa.FieldAddr:
 		p := fr.get(instr.X).(*Value)
 		if p == nil {
 			e.rtPanic("invalid memory address or nil pointer dereference")
 		}
-		fr.env[instr] = &(*p).(Struct)[instr.Field]
+		fr.set(instr, &(*p).(Struct)[instr.Field])
 
 	case *ssa.Field:
-		fr.env[instr] = fr.get(instr.X).(Struct)[instr.Field]
+		fr.set(instr, fr.get(instr.X).(Struct)[instr.Field])
 
 	case *ssa.IndexAddr:
 		x := fr.get(instr.X)
@@ -358,7 +419,7 @@ func (e *Engine) visitInstr(fr *frame, instr ssa.Instruction) (ret bool, jumped 
 			if idx < 0 || idx >= int64(len(x)) {
 				e.rtPanic(fmt.Sprintf("index out of range [%d] with length %d", idx, len(x)))
 			}
-			fr.env[instr] = &x[idx]
+			fr.set(instr, &x[idx])
 		case *Value:
 			if x == nil {
 				e.rtPanic("invalid memory address or nil pointer dereference")
@@ -367,7 +428,7 @@ func (e *Engine) visitInstr(fr *frame, instr ssa.Instruction) (ret bool, jumped 
 			if idx < 0 || idx >= int64(len(a)) {
 				e.rtPanic(fmt.Sprintf("index out of range [%d] with length %d", idx, len(a)))
 			}
-			fr.env[instr] = &a[idx]
+			fr.set(instr, &a[idx])
 		default:
 			panic(engineErr("IndexAddr on %T", x))
 		}
@@ -380,12 +441,12 @@ func (e *Engine) visitInstr(fr *frame, instr ssa.Instruction) (ret bool, jumped 
 			if idx < 0 || idx >= int64(len(x)) {
 				e.rtPanic("index out of range")
 			}
-			fr.env[instr] = x[idx]
+			fr.set(instr, x[idx])
 		case string:
 			if idx < 0 || idx >= int64(len(x)) {
 				e.rtPanic("index out of range")
 			}
-			fr.env[instr] = uint64(x[idx])
+			fr.set(instr, uint64(x[idx]))
 		case *ByteStr:
 			if idx < 0 || idx >= int64(x.Len()) {
 				e.rtPanic("index out of range")
@@ -394,13 +455,13 @@ func (e *Engine) visitInstr(fr *frame, instr ssa.Instruction) (ret bool, jumped 
 			if t, ok := b.(*Term); ok && t.Sort.K == SInt {
 				b = e.simplify(e.ts.Int2BV(t, 8), nil)
 			}
-			fr.env[instr] = b
+			fr.set(instr, b)
 		default:
 			panic(engineErr("Index on %T", x))
 		}
 
 	case *ssa.Lookup:
-		fr.env[instr] = e.lookup(instr, fr.get(instr.X), fr.get(instr.Index))
+		fr.set(instr, e.lookup(instr, fr.get(instr.X), fr.get(instr.Index)))
 
 	case *ssa.MapUpdate:
 		m := fr.get(instr.Map).(*Map)
@@ -411,18 +472,18 @@ func (e *Engine) visitInstr(fr *frame, instr ssa.Instruction) (ret bool, jumped 
 		m.insert(e, fr.get(instr.Key), copyVal(fr.get(instr.Value)))
 
 	case *ssa.TypeAssert:
-		fr.env[instr] = e.typeAssert(instr, fr.get(instr.X).(Iface))
+		fr.set(instr, e.typeAssert(instr, fr.get(instr.X).(Iface)))
 
 	case *ssa.MakeClosure:
 		bindings := make([]Value, 0, len(instr.Bindings))
 		for _, b := range instr.Bindings {
 			bindings = append(bindings, fr.get(b))
 		}
-		fr.env[instr] = &Closure{Fn: instr.Fn.(*ssa.Function), Env: bindings}
+		fr.set(instr, &Closure{Fn: instr.Fn.(*ssa.Function), Env: bindings})
 
 	case *ssa.Select:
 		fr.g.siteOK = e.siteOK(instr.Pos())
-		fr.env[instr] = e.selectOp(fr, instr)
+		fr.set(instr, e.selectOp(fr, instr))
 
 	default:
 		panic(engineErr("unexpected instruction %T at %s", instr, e.pos(instr.Pos())))
@@ -565,11 +626,20 @@ func (e *Engine) call(caller *frame, pos token.Pos, fn Value, args []Value) Valu
 	panic(engineErr("cannot call %T", fn))
 }
 
+var funcKeyCache sync.Map // *ssa.Function -> string
+
 func funcKey(fn *ssa.Function) string {
-	if o := fn.Origin(); o != nil {
-		return o.String()
+	if k, ok := funcKeyCache.Load(fn); ok {
+		return k.(string)
 	}
-	return fn.String()
+	var k string
+	if o := fn.Origin(); o != nil {
+		k = o.String()
+	} else {
+		k = fn.String()
+	}
+	funcKeyCache.Store(fn, k)
+	return k
 }
 
 func (e *Engine) callSSA(caller *frame, pos token.Pos, fn *ssa.Function, args []Value, env []Value) Value {
@@ -626,18 +696,19 @@ func (e *Engine) callSSA(caller *frame, pos token.Pos, fn *ssa.Function, args []
 	}
 	defer func() { e.depth-- }()
 
-	fr.env = make(map[ssa.Value]Value, 16)
+	fr.layout = layoutOf(fn)
+	fr.env = make([]Value, fr.layout.n)
 	fr.block = fn.Blocks[0]
 	fr.locals = make([]Value, len(fn.Locals))
 	for i, l := range fn.Locals {
 		fr.locals[i] = zero(deref(l.Type()))
-		fr.env[l] = &fr.locals[i]
+		fr.set(l, &fr.locals[i])
 	}
 	for i, p := range fn.Params {
-		fr.env[p] = args[i]
+		fr.set(p, args[i])
 	}
 	for i, fv := range fn.FreeVars {
-		fr.env[fv] = env[i]
+		fr.set(fv, env[i])
 	}
 	for fr.block != nil {
 		e.runFrame(fr)
@@ -705,7 +776,7 @@ func (e *Engine) executePhis(fr *frame) []ssa.Instruction {
 			fr.phitemps = append(fr.phitemps, fr.get(phi.Edges[predIndex]))
 		}
 		for i, phi := range phis {
-			fr.env[phi.(*ssa.Phi)] = fr.phitemps[i]
+			fr.set(phi.(*ssa.Phi), fr.phitemps[i])
 		}
 	}
 	return nonPhis
@@ -1142,6 +1213,15 @@ func shortFn(fn *ssa.Function) string {
 func (e *Engine) siteOK(pos token.Pos) bool {
 	if pos == token.NoPos {
 		return false
+	}
+	if !e.pointTrace {
+		if v, ok := e.sitePosCache[pos]; ok {
+			return v
+		}
+		file := e.prog.Fset.Position(pos).Filename
+		v := filepath.Dir(file) == e.pkgDir && !strings.HasPrefix(filepath.Base(file), "zz_verif_m_") && !strings.HasPrefix(filepath.Base(file), "zz_verif_rt_")
+		e.sitePosCache[pos] = v
+		return v
 	}
 	file := e.prog.Fset.Position(pos).Filename
 	if v, ok := e.siteCache[file]; ok {
